@@ -56,7 +56,28 @@ class Unsupported(BaseException):
 # ---------------------------------------------------------------------------
 # raw devices
 # ---------------------------------------------------------------------------
-class _RRaw(io.RawIOBase):
+class _HasFileno:
+    """file objects on simulated files have a (simulated) descriptor too: os.fsync(f.fileno()), os.fstat(...)"""
+    _alias_fd = None
+
+    def fileno(self):
+        if self.closed:
+            raise ValueError("I/O operation on closed file")
+        if self._alias_fd is None:
+            w = self._w
+            fd = w.next_fd
+            w.next_fd += 1
+            w.fds[fd] = {"path": self._path, "flags": 0, "raw": self, "inc": self._inc, "alias": True}
+            self._alias_fd = fd
+        return self._alias_fd
+
+    def _drop_alias(self):
+        if self._alias_fd is not None:
+            self._w.fds.pop(self._alias_fd, None)
+            self._alias_fd = None
+
+
+class _RRaw(_HasFileno, io.RawIOBase):
     def __init__(self, world, inc, path, data, eio_after=None):
         super().__init__()
         self._w, self._inc, self._path = world, inc, path
@@ -95,12 +116,13 @@ class _RRaw(io.RawIOBase):
 
     def close(self):
         if not self.closed:
+            self._drop_alias()
             super().close()
             if not self._inc.dead:
                 self._w.log_event(self._inc, "close-r", self._path, "ok", self._pos)
 
 
-class _WRaw(io.RawIOBase):
+class _WRaw(_HasFileno, io.RawIOBase):
     def __init__(self, world, inc, path, append=False):
         super().__init__()
         self._w, self._inc, self._path = world, inc, path
@@ -134,6 +156,7 @@ class _WRaw(io.RawIOBase):
 
     def close(self):
         if not self.closed:
+            self._drop_alias()
             try:
                 if not self._inc.dead:
                     self._w.gate(self._inc, "close", self._path, nbytes=self._n)
@@ -142,7 +165,7 @@ class _WRaw(io.RawIOBase):
                 super().close()
 
 
-class _RWRaw(io.RawIOBase):
+class _RWRaw(_HasFileno, io.RawIOBase):
     """read/write device for 'r+', 'w+', 'a+', 'x' opens: positioned writes straight into the file image"""
 
     def __init__(self, world, inc, path, append=False):
@@ -209,6 +232,7 @@ class _RWRaw(io.RawIOBase):
 
     def close(self):
         if not self.closed:
+            self._drop_alias()
             try:
                 if not self._inc.dead:
                     self._w.gate(self._inc, "close", self._path, nbytes=self._n)
@@ -496,7 +520,12 @@ class World:
         self.gate(inc, opname, path)
         if path in self.dirs:
             if acc == 0:
-                raise Unsupported("os.open of a simulated directory %s" % path)
+                # a descriptor on a directory (to fsync it after a rename, or to list it)
+                fd = self.next_fd
+                self.next_fd += 1
+                self.fds[fd] = {"path": path, "flags": flags, "raw": None, "inc": inc, "dir": True}
+                self.log_event(inc, "open-dir", path, "ok", fd - 1000000)
+                return fd
             self.log_event(inc, opname, path, "EISDIR")
             raise IsADirectoryError(errno.EISDIR, os.strerror(errno.EISDIR), path)
         exists = path in self.files
@@ -523,6 +552,8 @@ class World:
 
     def fd_raw(self, fd):
         ent = self.fds[fd]
+        if ent.get("dir"):
+            raise IsADirectoryError(errno.EISDIR, os.strerror(errno.EISDIR), ent["path"])
         if ent["raw"] is None:
             ent["raw"] = _RWRaw(self, ent["inc"] or _HARNESS_INC, ent["path"], append=bool(ent["flags"] & os.O_APPEND))
         return ent["raw"]
@@ -976,8 +1007,11 @@ def _patched_os_fsync(fd):
 def _patched_os_fstat(fd, *a, **k):
     w = WORLD
     if w is not None and fd in w.fds:
-        return os.stat_result((statmod.S_IFREG | 0o600, 0, 0, 1, 0, 0,
-                               len(w.files.get(w.fds[fd]["path"], b"")), 0, 0, 0))
+        pth = w.fds[fd]["path"]
+        if w.fds[fd].get("dir"):
+            return os.stat_result((statmod.S_IFDIR | w.modes.get(pth, 0o755), 0, 0, 2, 0, 0, 4096, 0, 0, 0))
+        return os.stat_result((statmod.S_IFREG | w.modes.get(pth, 0o644), 0, 0, 1, 0, 0,
+                               len(w.files.get(pth, b"")), 0, 0, 0))
     return _real["os_fstat"](fd, *a, **k)
 
 
